@@ -306,6 +306,23 @@ func runCase(c Case) (res vt.Result, fail *vt.Fail) {
 			current = s
 			live = true
 			res.Classes = append(res.Classes, "reopen-new")
+			if f := m.refresh(ctx, ociStore, d, when); f != nil {
+				return res, f
+			}
+			if f := orc.CheckPredsView(ctx, s, d, m.Stored, filepath.Join(dir, "layout"), "C07", when+" [oci.New view]"); f != nil {
+				return res, f
+			}
+			// the history cannot continue meaningfully on a store that does not
+			// know some stored manifests; stop when that is the case
+			if idx, err := orc.IndexedSet(filepath.Join(dir, "layout"), d, m.Stored); err == nil && len(idx) != len(m.Stored) {
+				for id := range m.Stored {
+					if !idx[id] && d.IsManifest(id) {
+						res.Classes = append(res.Classes, "stopped-at-unindexed-manifest-after-reopen")
+						return res, nil
+					}
+				}
+			}
+			continue
 		case "reopen-fs":
 			s, err := oci.NewFromFS(ctx, os.DirFS(filepath.Join(dir, "layout")))
 			if err != nil {
@@ -315,7 +332,7 @@ func runCase(c Case) (res vt.Result, fail *vt.Fail) {
 			if f != nil {
 				return res, f
 			}
-			if f := checkPreds(ctx, s, d, vs, when+" [fs view]"); f != nil {
+			if f := orc.CheckPredsView(ctx, s, d, vs, filepath.Join(dir, "layout"), "C07", when+" [fs view]"); f != nil {
 				return res, f
 			}
 			res.Classes = append(res.Classes, "reopen-fs")
@@ -333,7 +350,7 @@ func runCase(c Case) (res vt.Result, fail *vt.Fail) {
 			if f != nil {
 				return res, f
 			}
-			if f := checkPreds(ctx, s, d, vs, when+" [tar view]"); f != nil {
+			if f := orc.CheckPredsView(ctx, s, d, vs, filepath.Join(dir, "layout"), "C07", when+" [tar view]"); f != nil {
 				return res, f
 			}
 			res.Classes = append(res.Classes, "reopen-tar-"+op.Fmt)
